@@ -1819,6 +1819,10 @@ class ReceivePackHandler(PackHandler):
         # if the client asked for it
         if self.has_capability(CAPABILITY_REPORT_STATUS):
             self._report_status(status)
+        elif self.has_capability(CAPABILITY_SIDE_BAND_64K):
+            # a client using the side band reads it until a flush, whether
+            # or not it asked for a report
+            self.proto.write_pkt_line(None)
 
 
 class UploadArchiveHandler(Handler):
